@@ -36,6 +36,9 @@ type C05Op struct {
 	DtNs    int64     `json:"dt_ns,omitempty"`
 	FKind   string    `json:"fkind,omitempty"` // fault: list | load | store | delete | load-own | load-of (names containing Match)
 	Match   string    `json:"match,omitempty"`
+	// ListFails (crash): the first that many listings of the restarted instance fail (each failed start-up listing
+	// costs the product's fixed one-second pause)
+	ListFails int `json:"list_fails,omitempty"`
 	Faults  []string  `json:"faults,omitempty"`
 	// Held (app): the transaction stays open - holding the LMDB write lock - until the instance's loop is
 	// stepped next, and commits 2 ms after the loop was let go
@@ -477,6 +480,13 @@ func (f *c05Fleet) exec(oi int, op C05Op) error {
 			f.appPuts[i] = nil
 			f.stats.emptiedRestart++
 		}
+		if op.ListFails > 0 {
+			var lf []string
+			for k := 0; k < op.ListFails; k++ {
+				lf = append(lf, fault.Fail)
+			}
+			nd.H.SetPlan("list", lf)
+		}
 		if _, err := nd.Start(); err != nil {
 			return fmt.Errorf("%s: restart: %v", where, err)
 		}
@@ -675,14 +685,16 @@ type enumC05 struct {
 	AppLate int `json:"app_late,omitempty"`
 	// Odd: the instances' configured names are changed by sanitising (the names in the bucket differ from the configured ones)
 	Odd bool `json:"odd,omitempty"`
+	// ListFails: the first that many listings after the restart fail
+	ListFails int `json:"list_fails,omitempty"`
 }
 
 func TestC05Enum(t *testing.T) {
 	vcore.RunEnum(t, vcore.Config{Property: "C05", Inflight: true,
-		Rule: "fault enumeration: instance A publishes key k (only copy), a peer B publishes k2; A is crashed at EVERY yield point (14) while it uploads a second change, restarted with the LMDB {kept, emptied}, with its own newest snapshot {downloadable, failing to load twice, followed by an undecodable newer blob, failing to load eight times while every other listing fails, only the instance's own snapshots failing to load forty times, or reported as not existing twice}; for emptied restarts also a second kill with the LMDB kept, at the first yield point or ten yields later (third life: an LMDB with data but not the data of its own snapshot); the application writes k' right after the restart; for emptied restarts with a failing own download also with remove_old_instances_interval = 1 ns (every snapshot, the own one included, counts as stale at restart); for emptied restarts with a failing own download also with instance names that sanitising changes, and with the application's write only 12 / 30 yields after the restart (the peer's snapshot merged, the own one still awaited); for emptied restarts additionally with storage_force_snapshot_interval = 1 ns (a periodic snapshot always overdue) x {the application writes k', writes nothing}; both loops run on; invariants as in TestC05Bucket after every bucket mutation; non-trivial = emptied restart"},
+		Rule: "fault enumeration: instance A publishes key k (only copy), a peer B publishes k2; A is crashed at EVERY yield point (14) while it uploads a second change, restarted with the LMDB {kept, emptied}, with its own newest snapshot {downloadable, failing to load twice, followed by an undecodable newer blob, failing to load eight times while every other listing fails, only the instance's own snapshots failing to load forty times, or reported as not existing twice}; for emptied restarts also a second kill with the LMDB kept, at the first yield point or ten yields later (third life: an LMDB with data but not the data of its own snapshot); the application writes k' right after the restart; for emptied restarts with a failing own download also with remove_old_instances_interval = 1 ns (every snapshot, the own one included, counts as stale at restart); for emptied restarts at every third point also with the first five listings after the restart failing (more than the retry budget of storage operations); for emptied restarts with a failing own download also with instance names that sanitising changes, and with the application's write only 12 / 30 yields after the restart (the peer's snapshot merged, the own one still awaited); for emptied restarts additionally with storage_force_snapshot_interval = 1 ns (a periodic snapshot always overdue) x {the application writes k', writes nothing}; both loops run on; invariants as in TestC05Bucket after every bucket mutation; non-trivial = emptied restart"},
 		func(yield func(enumC05) bool) {
 			for _, native := range []bool{true, false} {
-				for _, p := range loopYieldPoints {
+				for pi, p := range loopYieldPoints {
 					for _, keep := range []bool{true, false} {
 						for _, own := range []string{"ok", "fail2", "corrupt-newest", "slow+listfail", "own-slow", "own-notexist"} {
 							if (own == "own-slow" || own == "own-notexist") && keep {
@@ -700,6 +712,12 @@ func TestC05Enum(t *testing.T) {
 							}
 							if !keep && (own == "fail2" || own == "own-slow") {
 								if !yield(enumC05{Native: native, Point: p, Keep: keep, Own: own, AgedOut: true}) {
+									return
+								}
+							}
+							if !keep && own == "ok" && pi%3 == 0 {
+								// the start-up listing fails more often in a row than the retry budget for storage operations (4)
+								if !yield(enumC05{Native: native, Point: p, Keep: keep, Own: own, ListFails: 5}) {
 									return
 								}
 							}
@@ -775,7 +793,7 @@ func TestC05Enum(t *testing.T) {
 				}
 				c.Ops = append(c.Ops, C05Op{Kind: "fault", Inst: 0, FKind: "load", Faults: ldf}, C05Op{Kind: "fault", Inst: 0, FKind: "list", Faults: lf})
 			}
-			c.Ops = append(c.Ops, C05Op{Kind: "crash", Inst: 0, Keep: e.Keep})
+			c.Ops = append(c.Ops, C05Op{Kind: "crash", Inst: 0, Keep: e.Keep, ListFails: e.ListFails})
 			if e.AppLate > 0 {
 				c.Ops = append(c.Ops, C05Op{Kind: "step", Inst: 0, Steps: e.AppLate})
 			}
